@@ -139,10 +139,13 @@ pub proof fn lemma_host_lt_order(a: SV, b: SV, c: SV)
 pub open spec fn host_sorted<T: ToSV>(s: Seq<T>) -> bool {
     forall|i: int, j: int| 0 <= i < j < s.len() ==> host_lt(#[trigger] s[i].sv(), #[trigger] s[j].sv())
 }
+/// the host function is deterministic: its answer is a function of the vector and the item
+pub uninterp spec fn bs_spec<T>(s: Seq<T>, x: T) -> Result<u32, u32>;
 impl<T: ToSV> Vec<T> {
     #[verifier::external_body]
     pub fn binary_search(&self, x: &T) -> (r: Result<u32, u32>)
         ensures
+            r == bs_spec(self@, *x),
             r is Ok ==> (r->Ok_0 as int) < self@.len() && self@[r->Ok_0 as int] == *x,
             r is Err ==> (r->Err_0 as int) <= self@.len(),
             host_sorted(self@) && r is Err ==> !self@.contains(*x)
